@@ -85,6 +85,24 @@ def run(chk, replay_rec):
     for np_, mw in ([(1, 3), (2, 2), (3, 1)] + ([(3, 2), (1, 4)] if thorough else [])):
         res = chk.tlc("Pipeline", cfg_text=pipe_cfg(np=np_, mw=mw), timeout=1800, name="Pipeline np=%d T=3 writes=%d" % (np_, mw))
         chk.model_ok(res, "Pipeline")
+    # ---- U: unbounded core.  PipeCore.tla is the single-producer collector pipeline over integers (contents are
+    # intervals of append order); Apalache discharges that IndInv is an inductive invariant for EVERY threshold
+    # T >= 1, every batch size and any number of writes, and IndInv implies Conservation and AtReturn.  TLC binds
+    # PipeCore to the spec the conformance checks use: Pipeline (np=1, collector, no fault) => PipeCore!Spec under
+    # a refinement mapping, and PipeCore!IndInv is an invariant of Pipeline's reachable states.
+    a0 = chk.apalache("PipeCore", ["--cinit=CInit", "--init=Init", "--inv=IndInv", "--length=0"], name="PipeCore Init => IndInv")
+    a1 = chk.apalache("PipeCore", ["--cinit=CInit", "--init=IndInit", "--inv=IndInv", "--length=1"],
+                      name="PipeCore IndInv /\\ Next => IndInv'")
+    if "error" in (a0, a1):
+        raise vlib.Inconclusive("PipeCore.IndInv is not inductive (model-level, not a verdict):\n" + chk.last_apalache[-3000:])
+    res = chk.tlc("PipelineRefinesCore", cfg_text=pipe_cfg(np=1, mw=3, live=False).replace("SPECIFICATION Spec", "SPECIFICATION Spec\nINVARIANT CoreIndInv\nPROPERTY CoreSpec\nCONSTANT BatchSize <- [PipeCore] FiniteBatch"),
+                  timeout=900, name="Pipeline(np=1) refines PipeCore")
+    chk.model_ok(res, "Pipeline => PipeCore!Spec")
+    chk.cov["unbounded_inductive_invariant"] = dict(
+        spec="PipeCore.tla", tool="apalache-mc 0.58", parameters="any T >= 1, any batch size, any number of writes",
+        obligations={"Init => IndInv": a0, "IndInv /\\ [Next]_vars => IndInv'": a1},
+        implies=["Conservation (delivered + in flight + buffered = written)", "AtReturn (returned => delivered = written, writer exited)"],
+        bound_to="Pipeline.tla by TLC: Spec(np=1) => PipeCore!Spec under a refinement mapping (%d distinct states)" % res.distinct)
     # ---- schedules with the code's real thresholds
     def sizes(t):
         return "{0,1,%d,%d,%d,%d}" % (t - 1, t, t + 1, 2 * t + 1)
